@@ -280,6 +280,10 @@ class Shadow:
         self.impl = real_fns()
         self.impl.update(impl or {})
         self.raw = {k: raw_of(v) for k, v in self.impl.items()}
+        # above 1000 grid points the convolution goes through the FFT, whose rounding depends on the argument order: the
+        # memoised value (first caller's order) and a fresh evaluation agree to the FFT's accuracy (C02: 1e-6 of the row
+        # peak), not to the last bits; such cases carry their own tolerance
+        self.tol = case.get("tol_shadow", TOL) if isinstance(case, dict) else TOL
         self.raw_mode = 0
         self.reported = set()
         self.returned = {}  # id -> (array, digest at return time)
@@ -323,7 +327,7 @@ class Shadow:
         if len(snap) != len(children) or any(not np.array_equal(s, c) for s, c in zip(snap, children)):
             self.fail("logS", "argument-mutated", "compute_log_S changed its arguments")
         ref = self.raw_logS(snap)
-        if not arr_close(ret, ref):
+        if not arr_close(ret, ref, self.tol):
             self.fail("logS", "value", f"memoised compute_log_S ({'hit' if hit else 'miss'}) differs from the unmemoised value",
                       {"max_abs_dev": max_dev(ret, ref), "children": len(snap)})
         else:
@@ -347,7 +351,7 @@ class Shadow:
         if not (np.array_equal(sa, a) and np.array_equal(sb, b)):
             self.fail("conv", "argument-mutated", "_convolve_two_children changed its arguments")
         ref = self.raw["conv"](sa, sb)
-        if not arr_close(ret, ref):
+        if not arr_close(ret, ref, self.tol):
             self.fail("conv", "value", f"memoised _convolve_two_children ({'hit' if hit else 'miss'}) differs from the unmemoised value",
                       {"max_abs_dev": max_dev(ret, ref)})
         else:
@@ -587,7 +591,7 @@ def gen_big_grid_case(rnd):
     if rnd.random() < 0.5:
         ops.insert(2, "clear")
     return {"kind": "logS", "G": G, "S": 1, "cap": None, "pool": [[[fr(x) for x in row] for row in m] for m in pool], "ops": ops,
-            "tol": 1e-6}
+            "tol": 1e-6, "tol_shadow": 1e-7}
 
 
 def gen_lru_case(rnd):
